@@ -82,6 +82,7 @@ func faultOpts(prop string, thorough bool) (GenOpts, faultEmphasis) {
 		em.ConnPhase = 4
 		em.Timeout = true
 		em.StartHigh = true
+		em.EnvPanic = true
 	case "C06":
 		em.ConnPhase = 5
 		em.Timeout = true
@@ -99,6 +100,7 @@ func faultOpts(prop string, thorough bool) (GenOpts, faultEmphasis) {
 		em.Kinds = []stopKind{stopInvalidEvent}
 		em.MaxFaults = 2
 		em.GateAccepted = true
+		o.LongIdle = true
 	}
 	if thorough {
 		o.MaxUnits = 7
